@@ -48,6 +48,9 @@ def run_vh(ctx, programs, cfg=None, sequential=False, sanity=True, dump=False, t
     """Analyse programs in one harness process (one configuration). Returns {id: result}."""
     if not programs:
         return {}
+    ids = [p["id"] for p in programs]
+    if len(set(ids)) != len(ids):
+        raise vlib.ToolError("duplicate program ids in one batch: %s" % sorted({i for i in ids if ids.count(i) > 1})[:5])
     work = os.path.join(ctx.scratch, "vhrun")
     os.makedirs(work, exist_ok=True)
     cmd = [exe or ctx.vh(), "run", "-dir", work] + cfg_flags(cfg)
